@@ -40,6 +40,7 @@ type Profile struct {
 	UnknownPropPct int
 	FeeMultiplier  int64
 	AimPct         int  // chance per block that the block time is aimed at a pending maturity / jail expiry (+-1 s)
+	NoDAOOwner     bool // genesis leaves the DAO owner empty (the shipped default): nobody may spend DAO funds
 	QueryHeavy     bool // reads are mostly /store/<name>/key queries over interesting keys and heights
 }
 
@@ -62,6 +63,7 @@ func SmallWindowPos(r *Rand) posTypes.Params {
 	p.DowntimeJailDuration = time.Duration(r.PickI64(60, 120, 600)) * time.Second
 	p.MaxEvidenceAge = time.Duration(r.PickI64(60, 120, 3600)) * time.Second
 	p.MaxValidators = uint64(r.PickI64(1, 2, 3, 5, 100000, 100000))
+	p.StakeMinimum = r.PickI64(1000000, 1000000, 2000000, 5000000, 15000000) // constant within a history
 	p.SlashFractionDowntime = []sdk.Dec{sdk.NewDecWithPrec(1, 2), sdk.ZeroDec(), sdk.NewDecWithPrec(1, 18), sdk.NewDecWithPrec(333333333333333333, 18), sdk.NewDecWithPrec(5, 1)}[r.Intn(5)]
 	p.SlashFractionDoubleSign = []sdk.Dec{sdk.NewDecWithPrec(5, 2), sdk.ZeroDec(), sdk.OneDec(), sdk.NewDecWithPrec(1, 18), sdk.NewDecWithPrec(1, 1)}[r.Intn(5)]
 	return p
@@ -88,12 +90,18 @@ type World struct {
 	Strangers []sdk.Address
 	OwnerOf map[string]*Actor // harness belief of ACL (only used to *choose* senders)
 	Tomb map[string]bool
+	// scenario hooks (deterministic scripts steer the walk through these)
+	Reserved     map[string]bool     // actors the random walk must leave alone while a script drives them
+	MissOverride map[string]int      // address -> miss percent, not re-drawn by phases
+	StepOverride *int64              // seconds to advance at the next block
+	Forced       []func() *TxSpec    // transactions delivered first in the next block
+	ForcedLabel  []string
 	forceUnjail []string // validators whose jail expiry the block time was aimed at: they try to unjail in this block
 }
 
 func NewWorld(seed uint64, p Profile, idx *TxIndex) *World {
 	r := NewRand(seed)
-	w := &World{R: r, P: p, ByAddr: map[string]*Actor{}, missPct: map[string]int{}, DirectToPool: new(big.Int), OwnerOf: map[string]*Actor{}, Tomb: map[string]bool{}}
+	w := &World{R: r, P: p, ByAddr: map[string]*Actor{}, missPct: map[string]int{}, MissOverride: map[string]int{}, Reserved: map[string]bool{}, DirectToPool: new(big.Int), OwnerOf: map[string]*Actor{}, Tomb: map[string]bool{}}
 	for i := 0; i < p.NEd; i++ {
 		w.Eds = append(w.Eds, NewEdActor(seed, i))
 	}
@@ -121,6 +129,9 @@ func NewWorld(seed uint64, p Profile, idx *TxIndex) *World {
 		DefOwner: w.Gov, DAOOwner: w.DAOOwn, DAOTokens: 5000000000, ACLOwner: map[string]*Actor{}}
 	if p.CustomPos {
 		g.PosParams = p.Pos
+	}
+	if p.NoDAOOwner {
+		g.DAOOwner = &Actor{Name: "nobody", Addr: sdk.Address{}}
 	}
 	if p.FeeMultiplier > 1 {
 		g.AuthParams.FeeMultiplier = authTypes.FeeMultipliers{Default: p.FeeMultiplier, FeeMultis: []authTypes.FeeMultiplier{{Key: "send", Multiplier: 2}}}
@@ -232,6 +243,12 @@ func (w *World) beginSpec() *BeginSpec {
 	h := e.H + 1
 	step := w.P.Steps[w.R.Intn(len(w.P.Steps))]
 	cp := ParamsOf(w.View())
+	if w.StepOverride != nil {
+		step = *w.StepOverride
+		w.StepOverride = nil
+		w.Now = w.Now.Add(time.Duration(step) * time.Second)
+		return w.finishBeginSpec(e, h, cp)
+	}
 	w.forceUnjail = nil
 	if w.R.Chance(w.P.AimPct) {
 		// land exactly on / next to a pending maturity or jail expiry
@@ -270,6 +287,10 @@ func (w *World) beginSpec() *BeginSpec {
 		step = 0
 	}
 	w.Now = w.Now.Add(time.Duration(step) * time.Second)
+	return w.finishBeginSpec(e, h, cp)
+}
+
+func (w *World) finishBeginSpec(e *Env, h int64, cp CurParams) *BeginSpec {
 	b := &BeginSpec{Height: h, Time: w.Now.Unix()}
 	if vs := e.Chain.Vals[h]; vs != nil && vs.Size() > 0 {
 		b.Proposer = hx(vs.GetProposer().Address)
@@ -287,6 +308,9 @@ func (w *World) beginSpec() *BeginSpec {
 			for _, v := range lv.Validators {
 				a := hx(v.Address)
 				signed := !w.R.Chance(w.missPct[a])
+				if o, ok := w.MissOverride[a]; ok {
+					signed = !w.R.Chance(o)
+				}
 				if a == w.Anchor.AddrHex() {
 					signed = true
 				}
@@ -412,7 +436,7 @@ func (w *World) extActions() (begin, end []ExtAction) {
 	}
 	if w.R.Chance(w.P.BurnPct) && len(valAddrs) > 0 {
 		a := valAddrs[w.R.Intn(len(valAddrs))]
-		if a != w.Anchor.AddrHex() && v.Vals[a].Status != 0 {
+		if a != w.Anchor.AddrHex() && v.Vals[a].Status != 0 && !w.Reserved[a] {
 			ad, _ := hex.DecodeString(a)
 			sev := []string{"0.0", "0.000000000000000001", "0.01", "0.1", "0.5", "1.0", "0.333333333333333333"}[w.R.Intn(7)]
 			end = append(end, ExtAction{Kind: "burn", Phase: "end", Addr: ad, Severity: sev})
@@ -545,6 +569,16 @@ func (w *World) Block() bool {
 			e.DeliverTx(bz, "fund-multisig", s)
 		}
 	}
+	for i, f := range w.Forced {
+		if s := f(); s != nil && !e.Dead {
+			bz, _, _ := s.Build(e.A.Cdc)
+			e.DeliverTx(bz, w.ForcedLabel[i], s)
+		}
+	}
+	w.Forced, w.ForcedLabel = nil, nil
+	if e.Dead {
+		return false
+	}
 	ntx := w.R.Intn(w.P.MaxTx + 1)
 	if len(w.forceUnjail) > ntx {
 		ntx = len(w.forceUnjail)
@@ -591,6 +625,23 @@ func (w *World) Block() bool {
 	}
 	return true
 }
+
+// Force queues a transaction for the next block.
+func (w *World) Force(label string, f func() *TxSpec) {
+	w.Forced = append(w.Forced, f)
+	w.ForcedLabel = append(w.ForcedLabel, "scenario:"+label)
+}
+
+// Honest builds an honest transaction spec for actor a with the required fee (used by scenarios).
+func (w *World) Honest(a *Actor, msg sdk.Msg) *TxSpec {
+	s := w.honest(a, msg, ParamsOf(w.View()))
+	s.PubInSig = a.Pub
+	s.Fee = ParamsOf(w.View()).RequiredFee(msg.Type())
+	return s
+}
+
+// Step sets the time advance of the next block.
+func (w *World) Step(sec int64) { w.StepOverride = &sec }
 
 func (w *World) Run() {
 	for i := 0; i < w.P.Blocks; i++ {
